@@ -112,7 +112,7 @@ def check_key_files(ws, viol, wit, preexisting_bad=()):
         data = open(os.path.join(KEY_DIR, name), "rb").read()
         try:
             j = json.loads(data)
-            ok = j.get("guid") == name[:-4] and isinstance(j.get("key"), str) and len(j["key"]) == 64
+            ok = j.get("guid") == name[:-4] and isinstance(j.get("key"), str) and len(j["key"]) >= 32 and len(j["key"]) % 2 == 0 and all(c in "0123456789abcdefABCDEF" for c in j["key"])
         except Exception:
             j, ok = None, False
         if not ok:
@@ -133,6 +133,9 @@ def trial(scratch, scenario, n, r, res, imds):
     if r.random() < 0.3:
         ws.guid_case = "upper"      # a host that prints guids in upper case (status and key documents alike)
         bump("trials_with_upper_case_guids")
+    if r.random() < 0.3:
+        ws.key_bits = r.choice([128, 512, 384])     # ... and issues keys that are not 256 bits long
+        bump("trials_with_keys_that_are_not_256_bits")
     pre_latched = prepare(scenario, ws, r)
     pre_bad = set()
     if scenario.startswith("local-key-") and scenario != "local-key-present":
@@ -257,6 +260,8 @@ def fault_trial(scratch, scenario, faults, r, res, imds):
     ws = wsmock.WsMock(key_dir=KEY_DIR, rng=r)
     if r.random() < 0.3:
         ws.guid_case = "upper"
+    if r.random() < 0.3:
+        ws.key_bits = r.choice([128, 512, 384])
     prepare(scenario, ws, r)
     pre_bad = {ws.latched + ".key"} if scenario.startswith("local-key-") and scenario != "local-key-present" else set()
     for step, spec in faults:
